@@ -1684,6 +1684,28 @@ func (h *hist) monitorEndBlock(o *obsT, before map[string][]lib.KV, custBefore m
 			}
 		}
 	}
+	// a stored record that does not decode any more: the designated outcome of the end blocker's
+	// ErrEncoding branches (regression expectation since the repair e5a1e24 of finding C15-3)
+	for _, p := range closing {
+		if !p.Undecodable {
+			continue
+		}
+		q := nowBy[p.ID]
+		switch {
+		case p.Status == 1 && q != nil:
+			h.fail("C15:undecodable-proposal:outcome", fmt.Sprintf("undecodable proposal %d left its deposit period but is still stored with status %d", p.ID, q.Status))
+		case p.Status == 2 && (q == nil || q.Status != 5):
+			h.fail("C15:undecodable-proposal:outcome", fmt.Sprintf("undecodable proposal %d left its voting period without being recorded as failed", p.ID))
+		}
+	}
+	for _, p := range prev.Props {
+		// ... and it must leave when its period is over, not stay in the queue
+		if p.Undecodable && (p.Status == 1 && p.DepEnd <= rel(h.c.Time) || p.Status == 2 && p.VEnd <= rel(h.c.Time)) {
+			if q := nowBy[p.ID]; q != nil && q.Undecodable {
+				h.fail("C15:undecodable-proposal:outcome", fmt.Sprintf("undecodable proposal %d is still queued after its period ended", p.ID))
+			}
+		}
+	}
 	// a proposal leaves its deposit / voting period through the end blocker only when that period is over
 	blockT := rel(h.c.Time)
 	for _, p := range closing {
@@ -2347,7 +2369,7 @@ func (h *hist) run(nops int) {
 			}
 		case x < 80:
 			if open := h.openIDs(0); h.class == "govsend" && len(open) > 0 && r.Chance(25) {
-				// a stored record becomes undecodable (defect class only: on the tree as it is this ends in a halt)
+				// a stored record becomes undecodable (finding C15-3, repaired in e5a1e24: refund and FAILED / removal)
 				if p := h.propObs(open[r.Intn(len(open))]); p != nil && !p.Undecodable {
 					h.opCorrupt(p.ID)
 				}
